@@ -820,6 +820,14 @@ def f_intflag():
             isinstance(x, _Tag), isinstance(x, int), x == 0x91, (x & 0x80) != 0, int(_Tag(0x11)), x.value)
 
 
+def f_container_dunders():
+    d = {3: 'c', 1: 'a'}
+    l = [10, 20, 30]
+    d.__setitem__(2, 'b')
+    return (list(map(d.__getitem__, sorted(d))), list(map(l.__getitem__, (2, 0))), d.__contains__(2), l.__contains__(5), d.__len__(), list(d.__iter__()),
+            sorted(d, key=d.__getitem__), list(map(l.__getitem__, range(len(l)))))
+
+
 def f_str_bits():
     s = bin(0b101101)[2:]
     return s, s.zfill(8), int(s[::-1], 2), s.count('1'), s.rfind('1'), s[:3] + '0' * 2, '{:08b}'.format(5), f'{5:08b}'[-3:], ''.join('1' if c == '0' else '0' for c in s)
